@@ -38,6 +38,10 @@ def plan_st(draw, tier):
     h = gen.History(draw, cfg, reward_family=fam, exact_only=(fam is None), max_rows=14)
     n = draw(st.integers(max(2, h.min_rows), 14 if tier == "quick" else 24))
     dec, rew, ctxs = h.batch(n=n, omit=False)
+    if h.family in ("E", "Epos") and draw(st.booleans()):
+        # rewards as users type them: whole numbers as Python ints next to fractions, so that some chunks are integer
+        # lists while the batch (and other chunks) are float lists
+        rew = [int(round(r)) if draw(st.booleans()) else r for r in rew]
     # composition into consecutive chunks
     first = draw(st.integers(h.min_rows, n))
     sizes = [first]
